@@ -98,7 +98,8 @@ fn tet_op(s: &crate::p3::shape::Tetrahedron, op: &str, a: &mut Args) -> String {
         "dist" => { let p = d3::p(a); let so = a.b(); ff(s.distance_to_local_point(&p, so)) }
         "cont" => { let p = d3::p(a); b(s.contains_local_point(&p)).into() }
         "feat" => { let p = d3::p(a); let (pp, f) = s.project_local_point_and_get_feature(&p); format!("{} {}", o3::fpp(&pp), ffeat3(f)) }
-        _ => "nofn".into(),
+        // the trait's default methods on top of the location form: proj, maxd, wproj, wdist, wcont
+        _ => o3::op(s, op, a),
     }));
     r.unwrap_or_else(|_| "panic".into())
 }
@@ -306,6 +307,97 @@ fn tri_sweep(o: &mut Out, r: &mut Rng, lat: bool) {
     }
 }
 
+/// base tetrahedra (exact small coordinates): corner, regular, needle (leaning apex), flat sliver (obtuse dihedral angles),
+/// skew (obtuse face angles)
+const TET_BASE: [[[f64; 3]; 4]; 5] = [
+    [[0.0, 0.0, 0.0], [2.0, 0.0, 0.0], [0.0, 2.0, 0.0], [0.0, 0.0, 2.0]],
+    [[1.0, 1.0, 1.0], [1.0, -1.0, -1.0], [-1.0, 1.0, -1.0], [-1.0, -1.0, 1.0]],
+    [[0.0, 0.0, 0.0], [1.0, 0.0, 0.0], [0.0, 1.0, 0.0], [0.25, 0.25, 8.0]],
+    [[0.0, 0.0, 0.0], [4.0, 0.0, 0.0], [0.0, 4.0, 0.0], [1.0, 1.0, 0.5]],
+    [[0.0, 0.0, 0.0], [4.0, 0.0, 0.0], [-2.0, 1.0, 0.0], [0.0, 0.5, 3.0]],
+];
+
+/// structured Voronoi sweep of ONE tetrahedron (fu5): for every vertex, edge and face a point of the feature plus a non-negative
+/// combination of the OUTWARD normals of the incident faces (the normal cone of the feature = its Voronoi region; zero weights put
+/// the query point exactly on the boundary between two regions), at several distances; plus interior / on-boundary points.
+/// The roles a, b, c, d are a random permutation of the geometric vertices, the pose is an exact lattice frame or a random
+/// isometry.  Every point is sent through the location form (both flags) and one of the other methods.
+fn tet_sweep(o: &mut Out, r: &mut Rng, lat: bool, fam: &mut std::collections::BTreeMap<String, usize>) {
+    let bi = r.below(TET_BASE.len() as u64) as usize;
+    let base = TET_BASE[bi];
+    let mut perm = [0usize, 1, 2, 3];
+    for i in (1..4).rev() { let j = r.below(i as u64 + 1) as usize; perm.swap(i, j); }
+    let f3 = *r.pick(&FRAMES3);
+    let o3 = d3::gen_v(r, true, 0.0);
+    let m3 = d3::gen_iso(r, false, 8.0);
+    let sc = if lat { *r.pick(&[0.5, 1.0, 2.0]) } else { r.logu(0.1, 8.0) };
+    let emb = |q: d3::Vector<f64>| -> d3::Point<f64> {
+        if lat { d3::Point::from(o3 + (v3(f3[0][0], f3[0][1], f3[0][2]) * q.x + v3(f3[1][0], f3[1][1], f3[1][2]) * q.y + v3(f3[2][0], f3[2][1], f3[2][2]) * q.z) * sc) }
+        else { m3 * d3::Point::from(q * sc) }
+    };
+    let vtx: Vec<d3::Vector<f64>> = (0..4).map(|i| { let b = base[perm[i]]; v3(b[0], b[1], b[2]) }).collect();
+    // outward normal of the face opposite to vertex k (not normalised: exact for the lattice bases)
+    let nrm = |k: usize| -> d3::Vector<f64> {
+        let f: Vec<usize> = (0..4).filter(|&i| i != k).collect();
+        let n = (vtx[f[1]] - vtx[f[0]]).cross(&(vtx[f[2]] - vtx[f[0]]));
+        let n = if n.dot(&(vtx[k] - vtx[f[0]])) > 0.0 { -n } else { n };
+        if lat { n * 0.25 } else { n / n.norm() }
+    };
+    let sargs = format!("{} {} {} {}", d3::hp(&emb(vtx[0])), d3::hp(&emb(vtx[1])), d3::hp(&emb(vtx[2])), d3::hp(&emb(vtx[3])));
+    let ext = 8.0 * sc * 1.5;
+    let mut pts: Vec<(String, d3::Vector<f64>)> = Vec::new();
+    let rad = |r: &mut Rng| if lat { *r.pick(&[0.25, 1.0, 4.0]) } else { r.logu(0.02, 6.0) };
+    // vertices: weights on the normals of the three incident faces (= faces opposite to the other vertices)
+    for v in 0..4 {
+        let inc: Vec<usize> = (0..4).filter(|&k| k != v).collect();
+        for w in [[1.0, 1.0, 1.0], [1.0, 0.0, 0.0], [0.0, 1.0, 0.0], [0.0, 0.0, 1.0], [1.0, 1.0, 0.0], [0.0, 2.0, 1.0], [3.0, 0.0, 1.0]] {
+            let d = nrm(inc[0]) * w[0] + nrm(inc[1]) * w[1] + nrm(inc[2]) * w[2];
+            pts.push((format!("tet-sweep vertex{}", if w.iter().filter(|x| **x == 0.0).count() > 0 { "-boundary" } else { "" }), vtx[v] + d * rad(r)));
+        }
+    }
+    // edges (u, v): incident faces are those opposite to the two other vertices
+    for u in 0..4 { for v in (u + 1)..4 {
+        let oth: Vec<usize> = (0..4).filter(|&k| k != u && k != v).collect();
+        for (t, w) in [(0.5, [1.0, 1.0]), (0.25, [1.0, 0.0]), (0.75, [0.0, 1.0]), (0.0, [1.0, 2.0]), (1.0, [2.0, 1.0]), (0.5, [3.0, 1.0])] {
+            let b = vtx[u] + (vtx[v] - vtx[u]) * t;
+            let d = nrm(oth[0]) * w[0] + nrm(oth[1]) * w[1];
+            pts.push((format!("tet-sweep edge{}", if t == 0.0 || t == 1.0 || w[0] == 0.0 || w[1] == 0.0 { "-boundary" } else { "" }), b + d * rad(r)));
+        }
+    } }
+    // faces (opposite to k)
+    for k in 0..4 {
+        let f: Vec<usize> = (0..4).filter(|&i| i != k).collect();
+        for bc in [[0.25, 0.25, 0.5], [0.5, 0.5, 0.0], [0.5, 0.25, 0.25], [0.125, 0.75, 0.125], [1.0, 0.0, 0.0]] {
+            let b = vtx[f[0]] * bc[0] + vtx[f[1]] * bc[1] + vtx[f[2]] * bc[2];
+            let onb = bc.iter().any(|x| *x == 0.0);
+            pts.push((format!("tet-sweep face{}", if onb { "-boundary" } else { "" }), b + nrm(k) * rad(r)));
+            if !onb { pts.push(("tet-sweep on-face".into(), b)); pts.push(("tet-sweep below-face (interior)".into(), b - nrm(k) * if lat { 0.0625 } else { 0.01 })); }
+        }
+    }
+    pts.push(("tet-sweep centre".into(), (vtx[0] + vtx[1] + vtx[2] + vtx[3]) * 0.25));
+    let mut cnt = 0usize;
+    for (name, q) in pts {
+        *fam.entry(name).or_insert(0) += 1;
+        cnt += 1;
+        let p = emb(q);
+        let ph = d3::hp(&p);
+        for so in ["0", "1"] { o.v.push(("tet_loc".into(), format!("{} {} {}", sargs, ph, so))); }
+        let so = if r.bool() { "1" } else { "0" };
+        match cnt % 8 {
+            0 => o.v.push(("tet_cont".into(), format!("{} {}", sargs, ph))),
+            1 => o.v.push(("tet_dist".into(), format!("{} {} {}", sargs, ph, so))),
+            2 => o.v.push(("tet_feat".into(), format!("{} {}", sargs, ph))),
+            3 => o.v.push(("tet_proj".into(), format!("{} {} {}", sargs, ph, so))),
+            4 => { let md = if lat { *r.pick(&[0.0, 0.125, 0.5, 1.0, 2.0]) * ext } else { r.uniform(0.0, ext) };
+                   o.v.push(("tet_maxd".into(), format!("{} {} {} {}", sargs, ph, so, hx(md)))) }
+            k => { let m = d3::gen_iso(r, lat, 100.0); let mh = d3::hiso(&m); let w = d3::hp(&(m * p));
+                   match k { 5 => o.v.push(("tet_wproj".into(), format!("{} {} {} {}", sargs, mh, w, so))),
+                             6 => o.v.push(("tet_wdist".into(), format!("{} {} {} {}", sargs, mh, w, so))),
+                             _ => o.v.push(("tet_wcont".into(), format!("{} {} {}", sargs, mh, w))) } }
+        }
+    }
+}
+
 fn mul(r: &mut Rng) -> f64 { *r.pick(&MUL) }
 
 pub fn gen(r: &mut Rng, thorough: bool) -> Vec<(String, String)> {
@@ -469,12 +561,34 @@ pub fn gen(r: &mut Rng, thorough: bool) -> Vec<(String, String)> {
             o.v.push(("tet_cont".into(), format!("{} {}", sargs, d3::hp(&p))));
             o.v.push(("tet_dist".into(), format!("{} {} {}", sargs, d3::hp(&p), if r.bool() { "1" } else { "0" })));
             o.v.push(("tet_feat".into(), format!("{} {}", sargs, d3::hp(&p))));
+            // default methods (fu5): bounded and posed forms; the posed point is the image of the same local point
+            // (a forked generator: the stream of the older families is unchanged)
+            let mut rt = Rng(r.0 ^ 0xA5A5_0005_7E70_0001);
+            let rt = &mut rt;
+            let so = if rt.bool() { "1" } else { "0" };
+            let ext = (ab.norm()).max(ac.norm()).max(ad.norm());
+            let md = if lat { *rt.pick(&[0.0, 0.25, 0.5, 1.0, 2.0]) * ext } else { rt.uniform(0.0, 2.0 * ext) };
+            o.v.push(("tet_proj".into(), format!("{} {} {}", sargs, d3::hp(&p), so)));
+            o.v.push(("tet_maxd".into(), format!("{} {} {} {}", sargs, d3::hp(&p), so, hx(md))));
+            let m = d3::gen_iso(rt, lat, 100.0);
+            let w = m * p;
+            let mh = d3::hiso(&m);
+            o.v.push(("tet_wproj".into(), format!("{} {} {} {}", sargs, mh, d3::hp(&w), so)));
+            o.v.push(("tet_wdist".into(), format!("{} {} {} {}", sargs, mh, d3::hp(&w), if rt.bool() { "1" } else { "0" })));
+            o.v.push(("tet_wcont".into(), format!("{} {} {}", sargs, mh, d3::hp(&w))));
         }
     }
     // ---- structured Voronoi sweep (triangles): one lattice + one random pass (quick), ten of each (thorough)
     for _ in 0..(if thorough { 10 } else { 1 }) {
         tri_sweep(&mut o, r, true);
         tri_sweep(&mut o, r, false);
+    }
+    // ---- structured Voronoi sweep (tetrahedron, fu5): 3 lattice + 3 random tetrahedra (quick), 30 + 30 (thorough)
+    {
+        let mut fam = std::collections::BTreeMap::new();
+        let mut rs = Rng(r.0 ^ 0xA5A5_0005_7E70_0002);       // forked: the stream of the older families is unchanged
+        for i in 0..(if thorough { 60 } else { 6 }) { tet_sweep(&mut o, &mut rs, i % 2 == 0, &mut fam); }
+        if std::env::var("VERIF_FAMILIES").is_ok() { for (k, c) in &fam { eprintln!("C05 family {} {}", k, c); } }
     }
     c05m::gen(r, thorough, &mut o.v);
     o.v
